@@ -25,6 +25,10 @@ package conf
 //@   requires m != nil
 //@   loop 1 iteration-ensures [entry-stored-under-canonical-key] calls(toCamelCase, k) == 1 && calls(toCamelCaseInterface, m[k]) == 1 && has(ret, ret(toCamelCase)) && ret[ret(toCamelCase)] == ret(toCamelCaseInterface)
 //@   ensures [fresh-map] fresh(result)
+// "every field equals the document's value exactly": the entries of a map[string]T FIELD are data, not field
+// names - a document key must still be there under its own spelling afterwards. (The loader cannot tell data from
+// field names at this point and rewrites both - see the known finding on this clause.)
+//@   loop 1 iteration-ensures [document-key-kept-under-its-own-spelling] has(ret, k) && ret[k] == ret(toCamelCaseInterface)
 
 // Loading: a JSON document's keys are canonicalised at every depth and the struct's tag keys with the same
 // function, so snake_case / different-initial-case spellings meet; a YAML document is first converted to JSON and
